@@ -9,6 +9,7 @@ from .common import import_sismic
 from .gen import HKINDS, Tree, chart_digest, gen_chart, shape_classes
 from .probes import Probes, ev_id, make_val
 from .refmodel import RefModel, legal
+from .orderrules import order_rules
 from . import build
 
 import_sismic()
@@ -403,102 +404,14 @@ class Case:
         if step.time != self.it.time:
             self.report('C13', 'step-time', 'MacroStep.time %r != interpreter.time %r' % (step.time, self.it.time), step=k)
             return False
-        # (b) order rules & (c) configuration recomputation ---------------------------------------------
-        cfg = set(before)
+        # (b) order rules & (c) configuration recomputation (shared with the shipped-chart monitor) --------
         tms = [ms for ms in step.steps if ms.transition is not None]
-        keys = [(-tr.depth(ms.transition.source), ms.transition.source) for ms in tms]
-        if keys != sorted(keys):
-            self.report('C03', 'transition-order', 'transitions processed in order %r, expected by decreasing source '
-                        'depth then name' % [ms.transition.source for ms in tms], step=k)
-            return False
-        first_t = True
-        for i, ms in enumerate(step.steps):
-            ex, en = ms.exited_states, ms.entered_states
-            if ms.transition is not None:
-                if not first_t:
-                    lg = legal(self.ch, cfg)
-                    if lg is not True and cfg:
-                        self.report('C03', 'next-transition-before-stable', 'transition %s started while configuration '
-                                    'was not stable: %s' % (self.tmap[id(ms.transition)], lg), step=k)
-                        return False
-                first_t = False
-                t = ms.transition
-                if t.target is None:
-                    if ex or en:
-                        self.report('C03', 'internal-exits-or-enters', 'internal transition exited %r entered %r' % (ex, en), step=k)
-                        return False
-                else:
-                    sa = tr.anc(t.source)
-                    ga = tr.anc(t.target)
-                    lca = next((x for x in sa if x in ga), None)
-                    top = t.source
-                    for x in sa:
-                        if x == lca:
-                            break
-                        top = x
-                    scope = set([top] + tr.desc(top))
-                    want = cfg & scope
-                    if set(ex) != want or len(ex) != len(set(ex)):
-                        self.report('C03', 'exit-set', 'transition %s->%s exited %r, active states in its scope are %r'
-                                    % (t.source, t.target, ex, sorted(want)), step=k, before=before)
-                        return False
-                    path = [t.target]
-                    for x in ga:
-                        if x == lca:
-                            break
-                        path.insert(0, x)
-                    if en != path:
-                        self.report('C03', 'entry-path', 'transition %s->%s entered %r, target path is %r'
-                                    % (t.source, t.target, en, path), step=k)
-                        return False
-            else:
-                # stabilisation / initial / event-only micro step
-                for s in ex:
-                    if not (st[s]['kind'] in HKINDS or st[s]['kind'] == 'final' or s == self.ch['root']):
-                        self.report('C03', 'stabilisation-exits', 'stabilisation micro step exited %r' % ex, step=k)
-                        return False
-            # innermost-first / outermost-first
-            for a in range(len(ex)):
-                for b in range(a + 1, len(ex)):
-                    if ex[a] in tr.anc(ex[b]):
-                        self.report('C03', 'exit-not-innermost-first', '%s exited before its descendant %s' % (ex[a], ex[b]), step=k)
-                        return False
-            for a in range(len(en)):
-                for b in range(a + 1, len(en)):
-                    if en[b] in tr.anc(en[a]):
-                        self.report('C03', 'entry-not-outermost-first', '%s entered before its ancestor %s' % (en[a], en[b]), step=k)
-                        return False
-            # orthogonal siblings in name order inside one list
-            for lst, what in ((ex, 'exited'), (en, 'entered')):
-                byp = {}
-                for s in lst:
-                    p = st[s]['parent']
-                    if p is not None and st[p]['kind'] == 'orthogonal':
-                        byp.setdefault(p, []).append(s)
-                for p, kids in byp.items():
-                    if kids != sorted(kids):
-                        self.report('C03', 'orthogonal-siblings-order', 'regions of %s %s in order %r, not in name order'
-                                    % (p, what, kids), step=k, via=self.via)
-                        return False
-                    if len(kids) >= 2:
-                        acc.count('c03_orth_sibling_lists')
-            for s in ex:
-                if s not in cfg:
-                    self.report('C03', 'exited-inactive', 'state %s exited but was not active' % s, step=k)
-                    return False
-                cfg.discard(s)
-            for s in en:
-                if s in cfg:
-                    self.report('C03', 'entered-active', 'state %s entered but was already active' % s, step=k)
-                    return False
-                p = st[s]['parent']
-                if p is not None and p not in cfg:
-                    self.report('C03', 'entered-under-inactive-parent', 'state %s entered while parent %s inactive' % (s, p), step=k)
-                    return False
-                cfg.add(s)
-        if cfg != set(self.it.configuration):
-            self.report('C03', 'configuration-not-recomputable', 'replaying exited/entered lists gives %r, configuration is %r'
-                        % (sorted(cfg), self.it.configuration), step=k)
+        counts = {}
+        bad = order_rules(self.ch, tr, step, before, self.it.configuration, counts)
+        for kk, vv in counts.items():
+            acc.count(kk, vv)
+        if bad:
+            self.report('C03', bad[0], bad[1], step=k, before=before, via=self.via, step_repr=str(step))
             return False
         acc.count('c03_trace_checks')
         if self.focus == 'C03':
